@@ -972,8 +972,12 @@ func (w *world) dstep(st Step) (so StepObs) {
 			so.Panic = fmt.Sprint(r)
 		}
 	}()
-	w.cmFaults, w.dnsFaults = nil, nil
+	w.cmFaults = append([]string(nil), st.CMFaults...)
+	w.dnsFaults = append([]string(nil), st.DNSFaults...)
 	w.derivedEv = 0
+	// the back-off delay of items that kept failing in the previous step has passed
+	w.ctlCM.ReleaseDelayed()
+	w.ctlDNS.ReleaseDelayed()
 	if st.Tamper != "" && w.tamper(st.Tamper, st.VS) {
 		// the watch delivers the foreign change; the owner-reference handler sees it
 		certs, dnss, complaints, err := w.refresh()
@@ -1008,40 +1012,23 @@ func (w *world) dstep(st Step) (so StepObs) {
 		dv.Enqueued = append(dv.Enqueued, "externaldns")
 	}
 	var cmErr, dnsErr error
-	retries := map[string]int{}
 	for round := 0; round < 16; round++ {
 		before := w.snapshot()
 		n := 0
-		for {
-			key, err, ok := w.ctlCM.ProcessNext(quietCtx)
-			if !ok {
-				break
-			}
+		for _, call := range w.ctlCM.RunWorker(quietCtx) {
 			n++
-			dv.Processed = append(dv.Processed, "cert-manager:"+key)
-			if key == vsKey {
-				cmErr = err
+			dv.Processed = append(dv.Processed, "cert-manager:"+call.Key)
+			if call.Key == vsKey {
+				cmErr = call.Err
 				dv.RanCM = true
 			}
-			if err != nil && retries["cm:"+key] < 1 {
-				retries["cm:"+key]++
-				w.ctlCM.Requeue(ns, strings.TrimPrefix(key, ns+"/"))
-			}
 		}
-		for {
-			key, err, ok := w.ctlDNS.ProcessNext(quietCtx)
-			if !ok {
-				break
-			}
+		for _, call := range w.ctlDNS.RunWorker(quietCtx) {
 			n++
-			dv.Processed = append(dv.Processed, "externaldns:"+key)
-			if key == vsKey {
-				dnsErr = err
+			dv.Processed = append(dv.Processed, "externaldns:"+call.Key)
+			if call.Key == vsKey {
+				dnsErr = call.Err
 				dv.RanDNS = true
-			}
-			if err != nil && retries["dns:"+key] < 1 {
-				retries["dns:"+key]++
-				w.ctlDNS.Requeue(ns, strings.TrimPrefix(key, ns+"/"))
 			}
 		}
 		so.CacheMutated = append(so.CacheMutated, w.mutated(before)...)
@@ -1131,12 +1118,8 @@ func runCase(c *Case) {
 	if c.Delivery {
 		// the initial objects reached the owner-reference handlers as Add events; the VirtualServers they
 		// name do not exist yet, so draining is a no-op
-		for w.ctlCM.QueueLen() > 0 {
-			w.ctlCM.ProcessNext(quietCtx)
-		}
-		for w.ctlDNS.QueueLen() > 0 {
-			w.ctlDNS.ProcessNext(quietCtx)
-		}
+		w.ctlCM.RunWorker(quietCtx)
+		w.ctlDNS.RunWorker(quietCtx)
 	}
 	for _, st := range c.Steps {
 		var so StepObs
@@ -1225,7 +1208,38 @@ func ensureCM(v *VSIn) *CMIn {
 // edit changes one field of the VirtualServer (every cert-manager and ExternalDNS field,
 // secret rename, host change, labels, external endpoints).
 func edit(r *vh.Rng, v *VSIn) string {
-	switch r.Intn(19) {
+	switch r.Intn(23) {
+	case 19: // removal only: one providerSpecific entry, or the whole block
+		v.XDNS.Enable = true
+		if n := len(v.XDNS.Provider); n > 1 && r.Chance(2, 3) {
+			k := r.Intn(n)
+			v.XDNS.Provider = append(append([]KV{}, v.XDNS.Provider[:k]...), v.XDNS.Provider[k+1:]...)
+		} else if n > 0 {
+			v.XDNS.Provider, v.XDNS.ProviderNil = nil, true
+		} else {
+			v.XDNS.Provider, v.XDNS.ProviderNil = []KV{{"a", "1"}, {"b", "2"}, {"aws/weight", "10"}}, false
+		}
+		return "providerSpecific-removal"
+	case 20: // removal only: one endpoint label, or all of them
+		v.XDNS.Enable = true
+		if v.XDNS.Labels != nil && len(*v.XDNS.Labels) > 1 {
+			l := append([]KV{}, (*v.XDNS.Labels)[1:]...)
+			v.XDNS.Labels = &l
+		} else if v.XDNS.Labels != nil {
+			v.XDNS.Labels = nil
+		} else {
+			v.XDNS.Labels = &[]KV{{"a", "1"}, {"b", "2"}}
+		}
+		return "dns-labels-removal"
+	case 21, 22: // removal only: one label of the VirtualServer, or all of them
+		if len(v.Labels) > 1 {
+			v.Labels = append([]KV{}, v.Labels[:len(v.Labels)-1]...)
+		} else if len(v.Labels) == 1 {
+			v.Labels = nil
+		} else {
+			v.Labels = []KV{{"app", "y"}, {"tier", "z"}}
+		}
+		return "labels-removal"
 	case 0:
 		ensureCM(v)
 		v.TLS.Secret = vh.Pick(r, secrets)
@@ -1461,6 +1475,7 @@ func genDelivery(r *vh.Rng, id int) *Case {
 	v := baseVS(r)
 	sanitizeDelivery(&v)
 	noise := 0
+	prevFaulty := false
 	nsteps := 4 + r.Intn(6)
 	for i := 0; i < nsteps; i++ {
 		st := Step{Kind: "first"}
@@ -1488,6 +1503,22 @@ func genDelivery(r *vh.Rng, id int) *Case {
 			sanitizeDelivery(&v)
 		}
 		st.VS, st.Noise = cloneVS(v), noise
+		// a write of this step fails; the real worker loop re-queues and retries.  The next step is
+		// fault-free, so that convergence is judged after the faults have stopped.
+		if !prevFaulty && st.Kind != "tamper" && i+1 < nsteps && r.Chance(1, 3) {
+			f := []string{vh.Pick(r, []string{"conflict", "exists", "internal"})}
+			if r.Chance(1, 3) {
+				f = append([]string{""}, f...)
+			}
+			if r.Bool() {
+				st.CMFaults = f
+			} else {
+				st.DNSFaults = f
+			}
+			prevFaulty = true
+		} else {
+			prevFaulty = false
+		}
 		c.Steps = append(c.Steps, st)
 	}
 	return c
@@ -1695,6 +1726,44 @@ func witnesses() []*Case {
 			func(st *Step, v *VSIn) { v.TLS.Secret = "s2" }),
 		dl("derived-events", func(v *VSIn) { v.XDNS.Enable = true },
 			tamperStep("delete-dns"), tamperStep("edit-dns"), tamperStep("delete-cert"), tamperStep("edit-cert"), noiseStep))
+	// a write fails under the real worker loop (runWorker: AddRateLimited / Forget / Done), then the
+	// VirtualServer is edited further: after the faults have stopped the derived object must converge
+	faulty := func(c *Case, step int, cmf, dnsf []string) *Case {
+		c.Steps[step].CMFaults, c.Steps[step].DNSFaults = cmf, dnsf
+		return c
+	}
+	ws = append(ws,
+		faulty(dl("worker-cert-update-fails-then-edits", nop,
+			func(st *Step, v *VSIn) { v.TLS.CM.CommonName = "cn.example.com" },
+			func(st *Step, v *VSIn) { v.Host = "b.example.com" },
+			noiseStep,
+			func(st *Step, v *VSIn) { st.Kind = "labels"; v.Labels = []KV{{"app", "x"}} }), 1, []string{"conflict"}, nil),
+		faulty(dl("worker-cert-create-fails-then-edits", nop,
+			func(st *Step, v *VSIn) { v.TLS.CM.CommonName = "cn.example.com" },
+			noiseStep), 0, []string{"internal"}, nil),
+		faulty(dl("worker-dns-update-fails-then-edits", func(v *VSIn) { v.TLS = nil; v.XDNS.Enable = true },
+			func(st *Step, v *VSIn) { v.XDNS.TTL = 300 },
+			func(st *Step, v *VSIn) { st.Kind = "endpoints"; ep := []ExtEp{{IP: "198.51.100.7"}}; v.Endpoints = &ep },
+			noiseStep), 1, nil, []string{"internal"}),
+		faulty(dl("worker-dns-create-exists-then-edits", func(v *VSIn) { v.TLS = nil; v.XDNS.Enable = true },
+			func(st *Step, v *VSIn) { v.XDNS.TTL = 60 },
+			noiseStep), 0, nil, []string{"exists"}))
+	// edits that only remove something the derived object was built from
+	dnsOn := func(v *VSIn) { v.TLS = nil; v.XDNS.Enable = true }
+	ws = append(ws,
+		mk("provider-entry-removed", func(v *VSIn) { dnsOn(v); v.XDNS.ProviderNil = false; v.XDNS.Provider = []KV{{"aws/weight", "10"}, {"alias", "true"}, {"b", "2"}} },
+			func(v *VSIn) { v.XDNS.Provider = []KV{{"aws/weight", "10"}} }),
+		mk("provider-block-removed", func(v *VSIn) { dnsOn(v); v.XDNS.ProviderNil = false; v.XDNS.Provider = []KV{{"aws/weight", "10"}, {"b", "2"}} },
+			func(v *VSIn) { v.XDNS.Provider, v.XDNS.ProviderNil = nil, true }),
+		mk("dns-label-removed", func(v *VSIn) { dnsOn(v); v.XDNS.Labels = &[]KV{{"a", "1"}, {"b", "2"}} },
+			func(v *VSIn) { v.XDNS.Labels = &[]KV{{"a", "1"}} }),
+		mk("dns-labels-block-removed", func(v *VSIn) { dnsOn(v); v.XDNS.Labels = &[]KV{{"a", "1"}, {"b", "2"}} },
+			func(v *VSIn) { v.XDNS.Labels = nil }),
+		mk("vs-label-removed", func(v *VSIn) { v.XDNS.Enable = true; v.Labels = []KV{{"app", "y"}, {"tier", "z"}} },
+			func(v *VSIn) { v.Labels = []KV{{"app", "y"}} }),
+		mk("vs-labels-all-removed", func(v *VSIn) { v.XDNS.Enable = true; v.Labels = []KV{{"app", "y"}, {"tier", "z"}} },
+			func(v *VSIn) { v.Labels = nil }),
+		mk("common-name-removed", func(v *VSIn) { v.TLS.CM.CommonName = "cn.example.com" }, func(v *VSIn) { v.TLS.CM.CommonName = "" }))
 	for i, c := range ws {
 		c.ID = i
 	}
